@@ -43,6 +43,10 @@ GEOMS = {
         dict(ver=1, spc=12, W=3, cut=0, skew=5),
         # a window deep inside the BAT
         dict(ver=2, spc=8, W=3, cut=3, skew=0, at=1022),
+        # BAT entries around 2^31 (v1: sectors, the cluster lies at the 1 TiB mark; v2: cluster numbers) and near 2^32
+        dict(ver=1, spc=2048, W=3, cut=9, skew=0, big=True, slot_off=(1 << 20) - 3),
+        dict(ver=2, spc=8, W=3, cut=1, skew=0, big=True, slot_off=(1 << 31) - 3),
+        dict(ver=2, spc=1, W=3, cut=0, skew=0, big=True, slot_off=(1 << 32) - 6),
     ],
     "thorough": [
         dict(ver=1, spc=63, W=4, cut=5, skew=1),
@@ -118,12 +122,12 @@ def _case_hds(case, ctx):
     at = g.get("at", 0)
     first = (64 + 4 * (at + len(case["states"]))) // (g["spc"] * 512) + 1 if at else 0
     states = [HOLE] * at + list(case["states"])
-    slots = [None] * at + [p + first if p is not None else None for p in case["slots"]]
+    slots = [None] * at + [p + first + g.get("slot_off", 0) if p is not None else None for p in case["slots"]]
     spc = g["spc"]
     nsec = len(states) * spc - g["cut"]
     size = nsec * 512
     buf = bootstrap.bufsize()
-    img = B.build_hds(states, slots, spc, g["ver"], nsec, skew=g["skew"])
+    img = B.build_hds(states, slots, spc, g["ver"], nsec, skew=g["skew"], tail_slack=not g.get("slot_off"))
     disk = B.model_hds(states, spc, nsec)
     ctx.model([g, states, slots])
     ctx.executions += 1
